@@ -839,6 +839,19 @@ fn build(tape: &Tape, open: Open, force_power: bool) -> Scenario {
                     stmt = String::new();
                 }
             }
+            if matches!(ty, Ty::FbTon | Ty::FbCtu | Ty::FbTrig | Ty::FbNest)
+                && n_tasks > 0
+                && r.chance(1, 3)
+            {
+                let t = r.pick(n_tasks);
+                let path = if ty == Ty::FbNest && r.flag() {
+                    format!("{name}.tm")
+                } else {
+                    name.clone()
+                };
+                progs[k].fb_tasks.push((path, t));
+                labels.insert("task=standard_fb_association".into());
+            }
             if r.chance(1, 4) && !ty.is_fb() {
                 let g2 = progs[k].gates[r.pick(progs[k].gates.len())].clone();
                 stmt = format!("IF {g2} THEN {stmt} END_IF;");
@@ -1028,10 +1041,7 @@ fn build(tape: &Tape, open: Open, force_power: bool) -> Scenario {
         let from_global = r.chance(1, 3);
         let prefix_res = use_resource && r.flag();
         let (path, ty_text) = if from_global {
-            let cands: Vec<&Var> = globals
-                .iter()
-                .filter(|v| !matches!(v.ty, Ty::FbTon | Ty::FbCtu | Ty::FbTrig | Ty::FbIo))
-                .collect();
+            let cands: Vec<&Var> = globals.iter().collect();
             if cands.is_empty() {
                 continue;
             }
@@ -1039,11 +1049,7 @@ fn build(tape: &Tape, open: Open, force_power: bool) -> Scenario {
             access_path(v, None, &mut r)
         } else {
             let k = r.pick(n_progs);
-            let cands: Vec<&Var> = progs[k]
-                .vars
-                .iter()
-                .filter(|v| !matches!(v.ty, Ty::FbTon | Ty::FbCtu | Ty::FbTrig | Ty::FbIo))
-                .collect();
+            let cands: Vec<&Var> = progs[k].vars.iter().collect();
             if cands.is_empty() {
                 continue;
             }
@@ -1060,6 +1066,52 @@ fn build(tape: &Tape, open: Open, force_power: bool) -> Scenario {
         access_decls.push(format!("    {name} : {path} : {ty_text} {dir};\n"));
         access.push(name);
         labels.insert("binding=var_access".into());
+    }
+
+    // dedicated paths INTO instances of standard blocks (directly or nested in a user FB): the
+    // reference is resolved at build time to the instance that holds the lazily created
+    // hidden state, so it shows whether a restart keeps addressing the live instance
+    {
+        let has_std = |t: Ty| matches!(t, Ty::FbTon | Ty::FbCtu | Ty::FbTrig | Ty::FbNest);
+        let mut targets: Vec<(Option<String>, usize, usize)> = Vec::new(); // (inst, prog, var idx)
+        for (gi, v) in globals.iter().enumerate() {
+            if has_std(v.ty) {
+                targets.push((None, 0, gi));
+            }
+        }
+        for (k, p) in progs.iter().enumerate() {
+            for (vi, v) in p.vars.iter().enumerate() {
+                if has_std(v.ty) {
+                    targets.push((Some(p.inst.clone()), k, vi));
+                }
+            }
+        }
+        for (n, (inst, k, vi)) in targets.into_iter().enumerate().take(5) {
+            if !r.chance(2, 3) {
+                continue;
+            }
+            let v = match &inst {
+                None => &globals[vi],
+                Some(_) => &progs[k].vars[vi],
+            };
+            let (path, ty_text) = if v.ty == Ty::FbNest {
+                let base = match &inst {
+                    Some(i) => format!("{i}.{}", v.name),
+                    None => v.name.clone(),
+                };
+                if r.flag() {
+                    (format!("{base}.tm.Q"), "BOOL".to_string())
+                } else {
+                    (format!("{base}.tm.ET"), "TIME".to_string())
+                }
+            } else {
+                access_path(v, inst.as_deref(), &mut r)
+            };
+            let name = format!("SB{n}");
+            access_decls.push(format!("    {name} : {path} : {ty_text} READ_ONLY;\n"));
+            access.push(name);
+            labels.insert("binding=var_access_into_standard_fb".into());
+        }
     }
 
     // ---- VAR_CONFIG initial value (known finding while open)
@@ -1231,6 +1283,28 @@ fn build(tape: &Tape, open: Open, force_power: bool) -> Scenario {
         let at = (ops.len() * 2) / 3;
         ops.insert(at, Op::PowerCycle);
     }
+    // most histories run at least one cycle before the first restart, so that instances of
+    // standard blocks have executed (and created their hidden state) when it happens
+    let first = ops.iter().position(is_restart).unwrap_or(0);
+    if !ops[..first].iter().any(|o| matches!(o, Op::Cycle { .. })) && r.chance(3, 4) {
+        ops.insert(
+            0,
+            Op::Cycle {
+                inputs: inputs
+                    .iter()
+                    .map(|s| if s.bits == 1 { 1 } else { input_word(&mut r, s.bits) | 1 })
+                    .collect(),
+                dt_ns: 10_000_000,
+            },
+        );
+        ops.insert(
+            1,
+            Op::Cycle {
+                inputs: inputs.iter().map(|s| input_word(&mut r, s.bits)).collect(),
+                dt_ns: 25_000_000,
+            },
+        );
+    }
     // a continuation after the last restart: at least two cycles with live inputs
     let last = ops.iter().rposition(is_restart).unwrap_or(0);
     let after = ops[last + 1..]
@@ -1288,7 +1362,20 @@ fn access_path(v: &Var, inst: Option<&str>, r: &mut Reader<'_>) -> (String, Stri
             (format!("{base}[{i}]"), "S1".into())
         }
         Ty::FbAcc => (format!("{base}.total"), "INT".into()),
-        Ty::FbNest => (format!("{base}.cnt"), "DINT".into()),
+        Ty::FbNest => match r.pick(4) {
+            0 => (format!("{base}.cnt"), "DINT".into()),
+            1 => (format!("{base}.tm.Q"), "BOOL".into()),
+            2 => (format!("{base}.inner.total"), "INT".into()),
+            _ => (format!("{base}.tm.ET"), "TIME".into()),
+        },
+        // standard blocks create hidden `__ST_*` members on first execution; CTU.CV is
+        // ANY_INT-typed and not accepted as an access type
+        Ty::FbTon => match r.pick(2) {
+            0 => (format!("{base}.Q"), "BOOL".into()),
+            _ => (format!("{base}.ET"), "TIME".into()),
+        },
+        Ty::FbCtu | Ty::FbTrig => (format!("{base}.Q"), "BOOL".into()),
+        Ty::FbIo => (format!("{base}.cnt"), "DINT".into()),
         Ty::ClassDer => (format!("{base}.cv"), "DINT".into()),
         other => (base, other.text().to_string()),
     }
